@@ -21,35 +21,40 @@ export Juniper.Proofs.SkeletonPar (under)
 
 /-- `spawn`: `RLock`; `if stopped { RUnlock; return }`; `wg.Add(1)`; `RUnlock`; `go func() { f(); wg.Done() }()`
 and no other statement (in particular no check or return before the lock is taken). -/
-theorem pskelGroupSpawn_tie : pskelGroupSpawn = ["call", "if{call;return}", "call", "call", "go{call;call}"] := by
+theorem pskelGroupSpawn_tie : pskelGroupSpawn =
+    ["mcall", "if{mcall;return}", "mcall", "mcall", "go{call;mcall}"] := by
   decide
 
 /-- `Do`: exactly `g.spawn(func() { f(g.ctx) })`. -/
-theorem pskelGroupDo_tie : pskelGroupDo = ["call{call}"] := by decide
+theorem pskelGroupDo_tie : pskelGroupDo =
+    ["mcall{call}"] := by decide
 
 /-- `Stop`: three calls (`Lock`, `cancel`, `Unlock`; which is which is `stopStmts`). -/
-theorem pskelGroupStop_tie : pskelGroupStop = ["call", "call", "call"] := by decide
+theorem pskelGroupStop_tie : pskelGroupStop =
+    ["mcall", "mcall", "mcall"] := by decide
 
 /-- `StopAndWait`: two calls (`g.Stop()`, `g.wg.Wait()`) and nothing else. -/
-theorem pskelGroupStopAndWait_tie : pskelGroupStopAndWait = ["call", "call"] := by decide
+theorem pskelGroupStopAndWait_tie : pskelGroupStopAndWait =
+    ["mcall", "mcall"] := by decide
 
 /-- `Trigger`: make the channel; `g.spawn(func() { for { if stopped { return }; select { Done: return; c: };
 f(g.ctx) } })`; return the trigger function `func() { select { c <- …: ; default: } }`. -/
 theorem pskelGroupTrigger_tie : pskelGroupTrigger =
-    ["define", "call{forever{if{return};select{recv{return};recv{}};call}}", "return{select{default{};send{}}}"] := by
+    ["define", "mcall{forever{if{return};select{recv{return};recv{}};call}}",
+     "return{select{default{};send{}}}"] := by
   decide
 
 /-- `Periodic`: `g.spawn(func() { t := NewTimer; defer t.Stop(); for { if stopped { return };
 select { Done: return; t.C: }; t.Reset(…); f(g.ctx) } })`. -/
 theorem pskelGroupPeriodic_tie : pskelGroupPeriodic =
-    ["call{define;defer;forever{if{return};select{recv{return};recv{}};call;call}}"] := by decide
+    ["mcall{define;defer;forever{if{return};select{recv{return};recv{}};mcall;call}}"] := by decide
 
 /-- `PeriodicOrTrigger`: make the channel; one `g.spawn(func() { t := NewTimer; defer t.Stop(); for {
 if stopped { return }; select { Done: return; t.C: Reset; c: if !Stop { <-t.C }; Reset }; f(g.ctx) } })`;
 return the trigger function. One goroutine runs `f` for both causes. -/
 theorem pskelGroupPeriodicOrTrigger_tie : pskelGroupPeriodicOrTrigger =
     ["define",
-     "call{define;defer;forever{if{return};select{recv{call};recv{if{recv};call};recv{return}};call}}",
+     "mcall{define;defer;forever{if{return};select{recv{if{recv};mcall};recv{mcall};recv{return}};call}}",
      "return{select{default{};send{}}}"] := by decide
 
 end Juniper.Proofs.SkeletonGroup
